@@ -61,6 +61,30 @@ package store
 //@   ensures reject_mismatch [C12]: verr == nil && !((version == 1 && writeAsV1) || (version == 2 && !writeAsV1)) ==> err != nil
 
 //@ func Resume
+//@   call[io.NewOffsetReadSeeker#1] assert v2_header_follows_the_pragma [C12]: !v1 && ref(arg0) == ref(rw) && arg1 == 11
+//@   call[io.NewOffsetReadSeeker#2] assert v2_scans_the_payload_window [C06,C12]: !v1 && ref(arg0) == ref(dataReader) && arg1 == 0
+//@   call[io.NewOffsetReadSeeker#0] assert v1_scans_the_file_from_its_start [C06,C12]: v1 && ref(arg0) == ref(rw) && arg1 == 0
+//@   call[fmt.Errorf#0] assert refuses_only_a_target_it_cannot_truncate [C12]: !v1
+//@   call[fmt.Errorf#1] assert refuses_only_a_padding_mismatch [C12]: !v1 && h2err == nil && cur(headerInFile).DataOffset != 0 && cur(headerInFile).DataOffset != dataOffset
+//@   call[errors.New#0] assert refuses_only_a_torn_size [C06,C12]: !v1 && h2err == nil && cur(headerInFile).DataOffset == dataOffset && cur(headerInFile).DataSize == 0
+//@   call[errors.New#1] assert refuses_only_data_after_an_indexless_payload [C06,C12]: !v1 && h2err == nil && cur(headerInFile).DataOffset == dataOffset && cur(headerInFile).DataSize != 0 && cur(headerInFile).IndexOffset == 0
+//@   call[ReaderAt.ReadAt#0] assert probes_the_first_byte_after_the_payload [C06]: ref(arg0) == ref(rw) && len(arg1) == 1 && arg2 == wrap_s64(wrap_u64(cur(headerInFile).DataOffset + cur(headerInFile).DataSize))
+//@   call[errors.New#2] assert refuses_only_other_roots [C12]: herr == nil && !matches
+//@   call[fmt.Errorf#2] assert refuses_only_an_unreadable_header [C12]: herr != nil
+//@   call[iface.Truncate#0] assert only_for_a_finalized_file [C06,C12]: cur(headerInFile).DataOffset != 0 && herr == nil && matches
+//@   ghost after call[Header.WriteTo#0]: mark(rw) := 1
+//@   call[io.NewOffsetWriter#0] assert header_slot_of_this_file [C06,C12]: arg1 == 11 && !v1
+//@   check v2_header_is_cleared_before_scanning [C06,C12]: err == nil && !v1 ==> mark(rw) == 1
+//@   call[Seeker.Seek#0] assert to_the_first_section [C06,C12]: ref(arg0) == ref(v1r) && arg1 == wrap_s64(hsize) && arg2 == 0
+//@   let _, serr := call[OffsetWriteSeeker.Seek#0]
+//@   check length_error_is_fatal [C06,C12]: lerr != nil && lerr != io.EOF ==> err != nil
+//@   call[OffsetWriteSeeker.Seek#0] assert reached_only_from_a_clean_end [C06,C12]: lerr == io.EOF || (lerr == nil && length == 0 && zeroLengthSectionAsEOF)
+//@   call[fmt.Errorf#4] assert refuses_only_a_zero_length_section_it_was_not_told_to_accept [C12]: lerr == nil && length == 0 && !zeroLengthSectionAsEOF
+//@   loop[0] step continues_only_after_a_real_section [C06,C12]: lerr == nil && length != 0
+//@   call[cid.CidFromReader#0] assert key_follows_the_length [C06,C12]: ref(arg0) == ref(v1r) && lerr == nil && length != 0
+//@   let nextOffset, skerr := call[Seeker.Seek#1]
+//@   call[Seeker.Seek#1] assert skips_the_block [C06,C12]: ref(arg0) == ref(v1r) && arg1 == wrap_s64(wrap_s64(length) - n) && arg2 == 1
+//@   call[ReaderAt.ReadAt#1] assert probes_the_last_byte_of_the_section [C06]: len(arg1) == 1 && arg2 == wrap_s64(nextOffset - 1) && skerr == nil
 //@   requires writer: dataWriter != nil && objinv(dataWriter)
 //@   requires index: idx != nil
 //@   let header, herr := call[carv1.ReadHeader#0]
